@@ -255,7 +255,10 @@ class _UFunc:
         return re
 
 
-def ufunc(name, vectorised=True, result="real"):
+def ufunc(name, vectorised=True, result="real", native=None):
+    """`native`: the concrete stand-in to use in native runs (default: a fixed smooth function of order-one arguments)"""
+    if native is not None:
+        return native
     return _UFunc(name, vectorised, result)
 
 
